@@ -42,6 +42,8 @@ def run(ctx):
     ctx.run_rule("PB", r_cbudget.rule_PB)
     import r_asmsym
     ctx.run_rule("R1asm1", r_asmsym.rule_R1asm_single)
+    ctx.run_rule("R1asmH", r_asmsym.rule_R1asm_hash)
+    ctx.run_rule("R1asmX", r_asmsym.rule_R1asm_xof)
     try:
         import r_ffi
         ctx.run_rule("M2", r_ffi.rule_M2, [c for c in cfgs if c.startswith("asm") or c.startswith("intr")])
